@@ -1,7 +1,7 @@
 (* C10 -- Rule selection: FIRST takes the first matching rule, BEST the shortest result.
    Model: Schc.cm_compress (manager.py).  Only statements; proofs in theories/SchcRules.v. *)
 From Coq Require Import ZArith List Bool.
-From MS Require Import PyBase Bits Schc SchcSpec SchcRules.
+From MS Require Import PyBase Bits Schc SchcSpec SchcRules Buffer BufferAbs Compute SchcBytes SchcRefine ParserBytes ParserRefine ComputeBytes ComputeRefine ManagerBytes ManagerRefine.
 Import ListNotations.
 Open Scope Z_scope.
 
@@ -55,8 +55,21 @@ Example c10_ex :
   cm_compress parse [r1; r2] [true;false] Up BEST = Ok [false;true;false].
 Proof. vm_compute. split; reflexivity. Qed.
 
+(* ContextManager.compress on byte-level Buffers (byte-level parser, matcher, compressor; FIRST and BEST) has the outcome of the
+   bit-level manager: the theorems above transfer to it *)
+Theorem c10_manager_bytes bparse parse rules packet d st :
+  parser_refines bparse parse -> Forall canon_rule rules -> canon packet -> bside packet = LEFT ->
+  cm_compress parse (map (abs_rule abs) rules) (abs packet) d st <> Exc Unmodelled ->
+  same_outcome bval_rel (bcm_compress bparse rules packet d st)
+                        (cm_compress parse (map (abs_rule abs) rules) (abs packet) d st).
+Proof. exact (bcm_compress_refines bparse parse rules packet d st). Qed.
+Theorem c10_factory_refines s : parser_refines (bfactory s) (Parsers.factory s).
+Proof. exact (bfactory_parser_refines s). Qed.
+
 Print Assumptions c10_first.
 Print Assumptions c10_best.
 Print Assumptions c10_best_earliest.
 Print Assumptions c10_best_le_first.
 Print Assumptions c10_default_applies.
+Print Assumptions c10_manager_bytes.
+Print Assumptions c10_factory_refines.
